@@ -93,6 +93,9 @@ func NewServerDnsListener(topDomain string, comm ServerCommunicator) *ServerDnsL
 					log.Infof("Removing stale user connection for user %d (%s)", u.UserId, u.remoteAddress)
 					srv.connections[u.UserId] = nil
 					srv.oldConnections[u.UserId] = u
+					u.closed = true
+					u.in.Close()
+					u.out.Close()
 				}
 			}
 
@@ -102,10 +105,12 @@ func NewServerDnsListener(topDomain string, comm ServerCommunicator) *ServerDnsL
 				}
 
 				if u.lastConnection.Add(OldConnectionTimeout).Before(now) {
-					// Remove connection from our list
+					// Forget the retired connection. The slot in `connections` may long have been given to a
+					// new, live session with the same id: it is none of our business here.
 					log.Infof("Removing stale old connection for user %d (%s)", u.UserId, u.remoteAddress)
-					srv.connections[u.UserId] = nil
-					srv.oldConnections[u.UserId] = u
+					if srv.oldConnections[u.UserId] == u {
+						srv.oldConnections[u.UserId] = nil
+					}
 				}
 			}
 
@@ -148,6 +153,11 @@ func (s *ServerDnsListener) newUser(a net.Addr) (*userConnection, error) {
 func (s *ServerDnsListener) closeConnection(u *userConnection) error {
 	s.usersLock.Lock()
 	defer s.usersLock.Unlock()
+
+	if s.connections[u.UserId] != u {
+		// Already retired; the slot may belong to a newer session (even one from the same address)
+		return nil
+	}
 
 	_, err := s.validateAndGetUser(u.UserId, u.remoteAddress)
 	if err == commands.BadUser {
